@@ -31,6 +31,9 @@ type State struct {
 	Trace  []string
 	Dead   bool
 	gcMark int
+	// BoolFacts records the outcome taken at branches on opaque booleans (string compares,
+	// library predicates) so that clients can ask under which outcomes a state was reached.
+	BoolFacts map[int]bool
 	// Dyn records, per unknown interface value, the dynamic type assumed on this path
 	// (nil = an implementation outside the repository).
 	Dyn map[int]types.Type
@@ -54,6 +57,12 @@ func (s *State) Clone() *State {
 	n.Defers = append([]*deferred(nil), s.Defers...)
 	n.Trace = append([]string(nil), s.Trace...)
 	n.gcMark = s.gcMark
+	if s.BoolFacts != nil {
+		n.BoolFacts = make(map[int]bool, len(s.BoolFacts))
+		for k, v := range s.BoolFacts {
+			n.BoolFacts[k] = v
+		}
+	}
 	if s.Dyn != nil {
 		n.Dyn = make(map[int]types.Type, len(s.Dyn))
 		for k, v := range s.Dyn {
@@ -106,3 +115,10 @@ func (s *State) Describe(seed ...Lin) string {
 	}
 	return b.String()
 }
+
+
+// Feasible reports whether c can hold in st (false only when st refutes it).
+func (s *State) Feasible(c Con) bool { return !s.Cons.InfeasibleWith(c) }
+
+// Entails reports whether st implies c.
+func (s *State) Entails(c Con) bool { return s.Cons.Entails(c) }
